@@ -166,6 +166,13 @@ class Seq:
                         if (ro is None) != (mo == "none"):
                             self.problems.append({"why": "revert_of of the new entry differs", "step": stepno, "cmd": c})
                     break
+            if not ok and real_outcome == "rejected" and outcome == "succeeded" and after_tree == before_tree and not new \
+                    and (b"Content mismatch" in e or b"Failed to apply" in e):
+                # The model does not track file contents: operations that feed one another on the same text (Foo -> Baz,
+                # Baz -> Qux) can make a stored plan / reverse patch inapplicable, and the real command then refuses
+                # cleanly. Tree and history are untouched (checked by the direct oracle above); the abstraction ends here.
+                self.content_limit = getattr(self, "content_limit", 0) + 1
+                return
             if not ok:
                 self.problems.append({"why": "model outcome differs from the real command", "step": stepno, "cmd": c, "rc": rc,
                                       "model": outcome, "real": real_outcome,
@@ -256,7 +263,7 @@ def run(R):
     scripts += [script_random(r, r.randint(4, 12)) for _ in range(10 if quick else 300)]
     fails, dis = [], []
     known = set()
-    stats = {"sequences": 0, "commands": 0, "lengths": {}}
+    stats = {"sequences": 0, "commands": 0, "lengths": {}, "ended_at_content_abstraction_limit": 0}
     for sc in scripts:
         with cli.Sandbox(base_tree()) as sb:
             S = Seq(M)
@@ -270,6 +277,7 @@ def run(R):
             for f in S.oracle_fail:
                 fails.append({**f, "script": sc})
             known |= S.known
+            stats["ended_at_content_abstraction_limit"] += getattr(S, "content_limit", 0)
             for d in S.problems:
                 dis.append({**d, "script": sc})
     M.close()
